@@ -726,6 +726,11 @@ func navigate(c Case, srv *server, latest map[string]string, spans map[string][]
 				if s.Line != line || (s.Kind != "use" && s.Kind != "fn") {
 					continue
 				}
+				if s.Kind == "use" {
+					if _, declared := decl[s.Name]; !declared {
+						continue // the name is declared nowhere: not a use of a declared variable
+					}
+				}
 				if ch >= s.Col && ch < s.Col+s.Len {
 					in = s
 				} else if ch == s.Col+s.Len {
